@@ -336,6 +336,13 @@ class Sampler:
         self.compactions: list[int] = []
         self.splits: list[int] = []
         self._last = (0, 0, 0)
+        self.hist = None  # optional History: lets the sampler tell put_sync flushes of the current event apart
+        self._hist_seen = 0
+        self.multi_install_events = 0  # deliveries in which one flush call installed >= 2 SSTables
+        if self.engine == "lsm":
+            st = store.stats
+            self._last = (st.memtable_flushes, st.compactions, 0)
+            self._l0_keys = next((lv["total_keys"] for lv in store.level_summary if lv["level"] == 0), 0)
         self.now_ns = 0
         self.events = 0
 
@@ -344,6 +351,13 @@ class Sampler:
 
     def on_event(self, event):
         self.events += 1
+        try:
+            self._on_event(event)
+        finally:
+            if self.hist is not None:
+                self._hist_seen = len(self.hist.recs)
+
+    def _on_event(self, event):
         t = event.time.nanoseconds
         self.now_ns = t
         if self.engine == "lsm":
@@ -354,6 +368,14 @@ class Sampler:
                 l0 = next((lv["total_keys"] for lv in self.store.level_summary if lv["level"] == 0), 0)
                 delta = l0 - self._l0_keys
                 self.flushes.extend([t] * n)
+                # installs that cannot be put_sync flushes issued in this very delivery: >= 2 of them means that a
+                # put()/delete() flush installed parked SSTables together with its own
+                n_sync = 0
+                if self.hist is not None:
+                    new = self.hist.recs[self._hist_seen :]
+                    n_sync = sum(1 for r in new if r.get("sync") and r["op"] == "put")
+                if n - n_sync >= 2:
+                    self.multi_install_events += 1
                 self.flush_keys.extend([max(0, delta) // n] * n)
                 self._l0_keys = l0
             elif s.compactions > c:
@@ -386,6 +408,7 @@ def build_sim(case: dict, ledger_factory=None):
     for cl, spec in zip(clients, case["clients"]):
         sim.schedule(Event(time=Instant.from_seconds(spec["start"]), event_type="go", target=cl))
     sampler = Sampler(store, cfg)
+    sampler.hist = hist
     sim.control.on_event(sampler.on_event)
     return sim, store, wal, hist, sampler, clients
 
